@@ -609,3 +609,47 @@ def prune_subrs_keeps_outline(total, used):
     ob('unused-subroutines-removed', len(G) == used)
     ob('same-outline', events_eq(before, after))
     ob('same-width', eq(w0, w1))
+
+
+# ------------------------------------------------------------------------------------------------ CFF2 blend packing
+import fontTools.cffLib.specializer as SPZ
+
+
+@kernel('C12', funcs=['cffLib/specializer.py:_convertToBlendCmds'],
+        bounds='one merged operator with p plain operands followed by q blended operands of r regions (p, q, r from the parameter list: up to 5 + 258 operands, 1-16 regions; the shapes are chosen so that one blend group would cross the limit if plain operands were not counted), '
+               'every default value and delta SYMBOLIC: the packed argument list, run by the CFF2 blend rule (push n defaults, n*r deltas, n; blend leaves n values), '
+               'leaves exactly the original operands - each blended one with its own default and its own deltas, in order - and the operand stack never holds more '
+               'than 513 entries (the CFF2 limit) at any point; the structure (p, q, r) is concrete per task, so the claim covers the listed shapes only',
+        shims=[], quick=[dict(p=0, q=3, r=2), dict(p=5, q=140, r=3), dict(p=4, q=175, r=2), dict(p=3, q=40, r=16)],
+        thorough=[dict(p=p, q=q, r=r) for p, q, r in ((0, 1, 1), (0, 3, 2), (5, 140, 3), (4, 175, 2), (3, 40, 16), (0, 171, 2), (3, 128, 3), (5, 110, 4), (4, 60, 8), (1, 255, 1), (2, 258, 1), (5, 70, 3))])
+def blend_cmds_stack_and_value(p, q, r):
+    plain = [V.int('p%d' % i, -1000, 1000) for i in range(p)]
+    blended = [[V.int('d%d_%d' % (i, k), -1000, 1000) for k in range(r + 1)] + [1] for i in range(q)]
+    args = list(plain) + [list(b) for b in blended]
+    new_args = SPZ._convertToBlendCmds(args)
+    stack, peak, ok = [], 0, True
+    for a in new_args:
+        if isinstance(a, list):
+            n = a[-1]
+            if not isinstance(n, int) or len(a) != n * (r + 1) + 1:
+                ok = False
+                break
+            peak = max(peak, len(stack) + len(a))
+            for i in range(n):
+                stack.append((a[i], [a[n + i * r + k] for k in range(r)]))
+        else:
+            stack.append((a, None))
+            peak = max(peak, len(stack))
+    observe('peak', peak)
+    observe('n_cmds', len(new_args))
+    ob('well-formed-blend-groups', ok)
+    ob('stack-within-cff2-limit', peak <= 513)
+    want = [(v, None) for v in plain] + [(b[0], b[1:-1]) for b in blended]
+    conds = [len(stack) == len(want)]
+    for (g, gd), (w, wd) in zip(stack, want):
+        conds.append(eq(g, w))
+        conds.append((gd is None) == (wd is None))
+        if gd is not None and wd is not None:
+            conds.append(len(gd) == len(wd))
+            conds += [eq(x, y) for x, y in zip(gd, wd)]
+    ob('operands-and-deltas-preserved', conj(conds))
